@@ -106,6 +106,13 @@ CHECKS["C15"] = dict(
     design_ref="3/C15",
 )
 
+CHECKS["C16"] = dict(
+    technique="Hypothesis-generated problems per puzzle codec with a round-trip oracle, an independently written pzpr-format decoder as differential oracle, and legacy-vs-combinator text comparison",
+    text="For nurikabe, masyu, slitherlink, sudoku, nurimisaki, yajilin ('..', '??', arrows with numbers up to 20), heyawake (general and rectangular form), lits, norinori, compass, star_battle, aquarium: problems on boards 1..12 (some 24/30) per side, square and not, with long empty runs and values at 15/16/255/256/300, rooms and cells in any order. (1) decode(encode(p)) == p with dimensions; (2) the URL carries name/width/height in the puzz.link order (split without cspuz' regex); (3) the body read by vlib/pzpr_ref equals the problem; (4) util.encode_array == Grid(OneOf(Spaces, HexInt)) text and util.encode_grid_segmentation == Rooms text. Exploration (sampled).",
+    note="Trusted base: vlib/pzpr_ref (DESIGN.md Appendix B), self-checked at start-up against 40 literal URLs of the repository whose expected problems are stored in corpus/literal_urls.json; aquarium / starbattle layouts have no literal URL to validate against. 14/14 sensitivity mutants caught; two genuine defects found and fixed (compass width/height, yajilin '??' and >= 16).",
+    design_ref="3/C16",
+)
+
 NOT_BUILT_REASON = "check not built yet in this session (planned in DESIGN.md section 3); not claimed until it runs quietly and is mutation-tested"
 
 def main():
